@@ -99,12 +99,14 @@ def env():
     cfg = Config()
 
     class ArrPDFRatio(PDFRatio):
-        """constant-array PDF ratio: R_i(p2) = R0_i + p2 * R1_i (p2 = optional second fit parameter)"""
+        """constant-array PDF ratio: R_i(p2) = R0_i + p2 * R1_i + p2^2 * R2_i (p2 = optional second fit parameter,
+        read from the src_params_recarray like every skyllh PDF ratio does)"""
 
-        def __init__(self, R0, R1=None, p2name=None, **kw):
+        def __init__(self, R0, R1=None, p2name=None, R2=None, **kw):
             super().__init__(sig_param_names=[p2name] if p2name else [], bkg_param_names=[], **kw)
             self.R0 = np.asarray(R0, dtype=np.float64)
             self.R1 = None if R1 is None else np.asarray(R1, dtype=np.float64)
+            self.R2 = None if R2 is None else np.asarray(R2, dtype=np.float64)
             self.p2name = p2name
 
         def initialize_for_new_trial(self, tdm, tl=None, **kw):
@@ -114,11 +116,15 @@ def env():
             if self.R1 is None:
                 return self.R0
             p2 = src_params_recarray[self.p2name][0]
+            if self.R2 is not None:
+                return self.R0 + p2 * self.R1 + (p2 * p2) * self.R2
             return self.R0 + p2 * self.R1
 
         def get_gradient(self, tdm, src_params_recarray, fitparam_id, tl=None):
             if self.R1 is None:
                 return np.zeros_like(self.R0)
+            if self.R2 is not None:
+                return self.R1 + 2.0 * src_params_recarray[self.p2name][0] * self.R2
             return self.R1
 
     def recording(base):
@@ -133,6 +139,7 @@ def env():
                     calls.append((np.array(x, dtype=np.float64).copy(), out))
                     return out
                 self.impl_calls.append(np.array(initials, dtype=np.float64).copy())
+                self.last_func = (func, func_args)
                 self.active += 1
                 try:
                     r = super().minimize(initials, bounds, rec, func_args, **kw)
@@ -234,7 +241,8 @@ def build_llh(case, impl, max_reps=100):
     ev = E['DFRA'](np.zeros((len(case['R0']),), dtype=[('x', np.float64)]))
     tdm.initialize_trial(shg_mgr=shg, pmm=pmm, events=ev, n_events=case['N'])
     m = E['mz'].Minimizer(impl, max_repetitions=max_reps)
-    pr = E['ArrPDFRatio'](case['R0'], case.get('R1') if two else None, 'gamma' if two else None, cfg=E['cfg'])
+    pr = E['ArrPDFRatio'](case['R0'], case.get('R1') if two else None, 'gamma' if two else None,
+                           R2=case.get('R2') if two else None, cfg=E['cfg'])
     return E['LLH'](cfg=E['cfg'], pmm=pmm, minimizer=m, shg_mgr=shg, tdm=tdm, pdfratio=pr)
 
 
@@ -243,7 +251,40 @@ def Xi_of(case, p2=None):
     R = np.asarray(case['R0'], dtype=np.float64)
     if p2 is not None and case.get('R1') is not None:
         R = R + p2 * np.asarray(case['R1'], dtype=np.float64)
+        if case.get('R2') is not None:
+            R = R + (p2 * p2) * np.asarray(case['R2'], dtype=np.float64)
     return (R - 1.0) / case['N']
+
+
+def grad2_exact(case, ns, p2=None):
+    """independent second derivative of log Lambda w.r.t. ns (domain without Taylor continuation)"""
+    Xi = Xi_of(case, p2)
+    N = case['N']
+    Np = len(Xi)
+    out = -math.fsum((x / (1 + ns * x)) ** 2 for x in Xi)
+    if N != Np:
+        out -= (N - Np) / (N - ns) ** 2
+    return out
+
+
+def fresh_nr(case, p2):
+    """a fresh run of the real NR1dNsMinimizerImpl on the INDEPENDENT reading of -log Lambda(., p2):
+    (log Lambda at its result, ns, warnflag) or None when it raises"""
+    E = env()
+    impl = E['mz'].NR1dNsMinimizerImpl(cfg=E['cfg'], ns_tol=case['ns_tol'], max_steps=case['max_steps'])
+
+    def f(x, *a):
+        ns = float(x[0])
+        return (np.float64(-ll_exact(case, ns, p2)), np.float64(-grad_exact(case, ns, p2)),
+                np.float64(-grad2_exact(case, ns, p2)))
+    try:
+        with warnings.catch_warnings(), np.errstate(all='ignore'):
+            warnings.simplefilter('ignore')
+            (x, fmin, st) = impl.minimize(np.array([case['init'][0]], dtype=np.float64),
+                                          np.array([case['bounds'][0]], dtype=np.float64), f)
+        return (-float(fmin), float(x[0]), int(st['warnflag']))
+    except Exception:
+        return None
 
 
 def ll_exact(case, ns, p2=None):
@@ -377,7 +418,7 @@ def check_result(ctx, site, case, res, status_ok, accuracy=None, p2=None):
     lo, hi = case['bounds'][0]
     ns = float(x[0])
     rc = {k: case[k] for k in ('R0', 'N', 'bounds', 'init', 'impl', 'kind') if k in case}
-    rc.update({k: case[k] for k in ('R1', 'p2s', 'p2_step', 'ns_tol', 'max_steps', 'max_reps') if k in case})
+    rc.update({k: case[k] for k in ('R1', 'R2', 'p2s', 'p2_step', 'ns_tol', 'max_steps', 'max_reps') if k in case})
     inb = all((b[0] <= float(v) <= b[1]) for v, b in zip(x, case['bounds']))
     if not inb:
         ctx.violation(site, 'optimum-out-of-bounds', f'reported optimum {list(map(float, x))} not within {case["bounds"]}',
@@ -592,22 +633,128 @@ def run_scan_case(ctx, case, lines, checks):
                           case=dict(case), impl=[float(llmax)] + list(map(float, x)), predicate='fmin = min over the scan')
     elif res is None:
         ctx.count('scan-raised:' + got[1])
+    if case.get('valid', True):
+        scan_probes(ctx, case, llh, impl, res, p2s)
 
 
-def gen_scan_case(ctx, rng):
-    land = gen_landscape(ctx, rng, rng.choice(['interior', 'lower', 'upper', 'interior']))
+def scan_probes(ctx, case, llh, impl, res, p2s):
+    """model-independent predicates on the real TCLLHRatio.maximize with NR+scan: the result is a function of the
+    current inputs only and is the best of the scan"""
+    E = env()
+    site = 'LLHRatio.maximize[NRNsScan2dMinimizerImpl]'
+    rc = {k: case[k] for k in case if k != 'valid'}
+    lo, hi = case['bounds'][0]
+    scale0 = sum(abs(math.log1p(max(hi * xi, ALPHA))) for xi in Xi_of(case, case['init'][1])) + 1.0
+    with warnings.catch_warnings(), np.errstate(all='ignore'):
+        warnings.simplefilter('ignore')
+        # (a) the objective closure handed to the minimiser is a function of its argument only: evaluated (after
+        #     the maximisation) at two different values of the second parameter it gives the independent values
+        if getattr(impl, 'last_func', None) is not None and p2s:
+            (func, fargs) = impl.last_func
+            ns_p = lo + 0.37 * (hi - lo)
+            for g in (p2s[-1], p2s[0], p2s[len(p2s) // 2]):
+                try:
+                    out = func(np.array([ns_p, g], dtype=np.float64), *(fargs or ()))
+                    got_v = (float(out[0]), float(out[1]), float(out[2]))
+                except Exception as ex:
+                    got_v = exc_kind(ex)
+                want_v = (-ll_exact(case, ns_p, g), -grad_exact(case, ns_p, g), -grad2_exact(case, ns_p, g))
+                sc = [scale0, sum(abs(x) for x in Xi_of(case, g)) + 1.0, sum(x * x for x in Xi_of(case, g)) * 1e6 + 1.0]
+                if isinstance(got_v, str) or not all(abs(a - b) <= 1e-9 * c for a, b, c in zip(got_v, want_v, sc)):
+                    ctx.violation(site, 'objective-closure-not-a-function-of-its-argument',
+                                  f'closure at (ns={ns_p!r}, gamma={g!r}) gives {got_v!r}, independent value {want_v!r}',
+                                  case=rc, impl=got_v, model=list(want_v),
+                                  predicate='func(x) == (-logL, -dlogL/dns, -d2logL/dns2)(x) for every x')
+                    break
+            ctx.count('scan-closure-probes')
+        if res is None:
+            return
+        (llmax, x, flag) = res
+        ns, g = float(x[0]), float(x[1])
+        scale = sum(abs(math.log1p(max(ns * xi, ALPHA))) for xi in Xi_of(case, g)) + abs(float(llmax)) + 1.0
+        # (b) log_lambda_max equals a fresh evaluation of a fresh llh-ratio object at the returned point
+        fresh = build_llh(case, E['mz'].NRNsScan2dMinimizerImpl(cfg=E['cfg'], p2_scan_step=case['p2_step']))
+        try:
+            (v, _) = fresh.evaluate(np.array([ns, g], dtype=np.float64))
+            v = float(v)
+        except Exception as ex:
+            v = float('nan')
+        if not abs(v - float(llmax)) <= 1e-9 * scale:
+            ctx.violation(site, 'value-not-fresh-evaluate', f'log_lambda_max {float(llmax)!r}, fresh evaluate gives {v!r}',
+                          case=rc, impl=[float(llmax), ns, g], predicate='log_lambda_max == evaluate(fitparam_values)')
+        # (c) best of the scan: not below the optimum of a fresh NR-1D run on the independent objective at any
+        #     scanned value of the second parameter
+        worst = None
+        at_init = None
+        for q in p2s:
+            r = fresh_nr(case, q)
+            if r is None:
+                continue
+            if q == float(case['init'][1]):
+                at_init = r
+            if worst is None or r[0] > worst[0]:
+                worst = (r[0], r[1], q)
+        if worst is not None and not float(llmax) >= worst[0] - 1e-7 * scale:
+            ctx.violation(site, 'below-scan-optimum',
+                          f'log_lambda_max {float(llmax)!r} at gamma={g!r}, but NR at gamma={worst[2]!r} reaches {worst[0]!r}',
+                          case=rc, impl=[float(llmax), ns, g], model=list(worst),
+                          predicate='log_lambda_max >= max over the scan grid of the NR optimum')
+        # (d) never below the value at the initial point (when the initial second parameter is a scan point)
+        ini_ns, ini_g = float(case['init'][0]), float(case['init'][1])
+        if at_init is not None and lo <= ini_ns <= hi:
+            l0 = ll_exact(case, ini_ns, ini_g)
+            slack = abs(grad_exact(case, at_init[1], ini_g)) * abs(ini_ns - at_init[1])
+            if not float(llmax) >= l0 - slack - 1e-7 * scale:
+                ctx.violation(site, 'below-initial-value',
+                              f'log_lambda_max {float(llmax)!r} < log Lambda at the initial point {l0!r}', case=rc,
+                              impl=[float(llmax), ns, g], predicate='logL(result) >= logL(initial point) - |slope| |dns|')
+            ctx.count('scan-initial-on-grid')
+        # (e) repeat: a second maximisation on the same object gives the identical result
+        try:
+            (ll2, x2, st2) = llh.maximize(E['RSS'](1))
+            same = feq(ll2, llmax) and all(feq(a, b) for a, b in zip(x2, x))
+        except Exception as ex:
+            same = False
+        if not same:
+            ctx.violation(site, 'repeat-differs', 'a second maximize() on the same object gives a different result',
+                          case=rc, impl=[float(llmax), ns, g], predicate='maximize is a function of the current inputs only')
+        ctx.count('scan-best-gamma:' + ('lower' if g == p2s[0] else 'upper' if g == p2s[-1] else 'interior'))
+
+
+def gen_scan_case(ctx, rng, best=None):
+    """second fit parameter gamma: R_i(g) = A_i * (1 - k (g - gb)^2) with gb interior / beyond the upper / beyond the
+    lower bound of gamma (or the linear dependence R0_i + g R1_i); signal-like landscapes, so that gamma matters"""
+    best = best or rng.choice(['interior', 'upper', 'lower', 'interior', 'upper', 'linear'])
+    for _ in range(50):
+        land = gen_landscape(ctx, rng, rng.choice(['interior', 'interior', 'upper', 'lower'] if best == 'linear'
+                                                  else ['interior', 'interior', 'steep', 'upper']))
+        if best == 'linear' or sum(land['R0']) > 1.2 * land['N']:
+            break
     lo, hi, init, where, iw = gen_bounds_init(ctx, rng, land)
-    Np = len(land['R0'])
-    # R_i(p2) = R0_i + p2*R1_i stays positive for p2 in [p2lo, p2hi]
     p2lo = rng.choice([0.0, 1.0, -1.0])
     p2hi = p2lo + rng.choice([1.0, 2.0, 0.5])
-    R1 = [rng.uniform(-0.3, 0.3) * r / max(abs(p2lo), abs(p2hi), 1.0) for r in land['R0']]
     step = rng.choice([0.5, 0.25, 0.1, 1.0, 0.3])
     case = dict(land)
-    case.update({'impl': 'nrscan2d', 'R1': R1, 'bounds': [[lo, hi], [p2lo, p2hi]],
-                 'init': [init, rng.choice([p2lo, p2hi, 0.5 * (p2lo + p2hi)])], 'where': where, 'p2_step': step,
-                 'ns_tol': 1e-3, 'max_steps': rng.choice([100, 100, 2]), 'max_reps': 100, 'valid': True})
+    if best == 'linear':
+        case['R1'] = [rng.uniform(-0.3, 0.3) * r / max(abs(p2lo), abs(p2hi), 1.0) for r in land['R0']]
+    else:
+        w = p2hi - p2lo
+        gb = {'interior': p2lo + rng.choice([0.25, 0.5, 0.75, rng.uniform(0.1, 0.9)]) * w,
+              'upper': p2hi + rng.choice([0.0, 0.5, 2.0]) * w, 'lower': p2lo - rng.choice([0.0, 0.5, 2.0]) * w}[best]
+        k = 0.8 / max(abs(p2lo - gb), abs(p2hi - gb)) ** 2
+        A = land['R0']
+        case['R0'] = [a * (1 - k * gb * gb) for a in A]
+        case['R1'] = [2 * k * gb * a for a in A]
+        case['R2'] = [-k * a for a in A]
+        lo = 0.0 if rng.random() < 0.7 else lo
+    if not lo < hi:
+        lo = 0.0
+    init = min(max(init, lo), hi)
+    case.update({'impl': 'nrscan2d', 'bounds': [[lo, hi], [p2lo, p2hi]],
+                 'init': [init, rng.choice([p2lo, p2hi, p2hi, 0.5 * (p2lo + p2hi)])], 'where': where, 'p2_step': step,
+                 'ns_tol': 1e-3, 'max_steps': rng.choice([100, 100, 100, 2]), 'max_reps': 100, 'valid': True})
     ctx.count('scan-cases')
+    ctx.count('scan-design:' + best)
     return case
 
 
@@ -841,6 +988,9 @@ def run(ctx):
         cases.append(('nr', gen_nr_case(ctx, rng)))
     for _ in range(ctx.budget(60, 1500)):
         cases.append(('nr', gen_nr_malformed(ctx, rng)))
+    for b in ['interior', 'upper', 'lower', 'linear']:
+        for _ in range(ctx.budget(8, 60)):
+            cases.append(('scan', gen_scan_case(ctx, rng, b)))
     for _ in range(n_scan):
         cases.append(('scan', gen_scan_case(ctx, rng)))
     impls = [i for i in WRAP_IMPLS if not (i == 'iminuit' and E['RecMinuit'] is None)]
